@@ -146,7 +146,7 @@ def _same_object_history(rep, case, mix, rng, Composition, CompositionType):
 def _one_group(rep, case, mix, m1, m2, cond, ps, Composition, CompositionType):
     results_m, results_w = [], []
     for p in ps:
-        w = Composition(p=p, type=CompositionType.weight)
+        w = Composition(p=p, type=gen._type_label("weight"))  # alternately the constant and an equal, non-identical string
         x = w.to_molar(mix)
         rep.count("conversions", 2)
         ex = _exact_molar(p, m1, m2)
@@ -158,8 +158,11 @@ def _one_group(rep, case, mix, m1, m2, cond, ps, Composition, CompositionType):
                     x.to_molar(mix) is x and w.to_weight(mix) is w, case)
         results_m.append((p, x.p, ex))
         # reverse direction on the same numeric value
-        xm = Composition(p=p, type=CompositionType.molar)
+        xm = Composition(p=p, type=gen._type_label("molar"))
         ww = xm.to_weight(mix)
+        rep.require("conversion to the basis a composition already has returns it unchanged (whatever string object names the basis)",
+                    xm.to_molar(mix).p == p and w.to_weight(mix).p == p and xm.to_molar(mix).type == "molar" and w.to_weight(mix).type == "weight", case,
+                    {"p": p, "to_molar(molar)": xm.to_molar(mix).p, "to_weight(weight)": w.to_weight(mix).p})
         ew = _exact_weight(p, m1, m2)
         rep.check("to_weight within 8 ulp of exact image", abs(Fraction(ww.p) - ew), 8 * EPS * ew + Fraction(4e-323), case,
                   {"p": p, "got": ww.p, "exact": float(ew)})
